@@ -25,6 +25,8 @@ pub enum Mode {
     Load,
     Walk,
     Mem,
+    /// outcome digest per input (C16 cross-profile comparison)
+    Digest,
 }
 
 impl Mode {
@@ -33,12 +35,14 @@ impl Mode {
             Mode::Load => "load",
             Mode::Walk => "walk",
             Mode::Mem => "mem",
+            Mode::Digest => "digest",
         }
     }
     pub fn parse(s: &str) -> Mode {
         match s {
             "walk" => Mode::Walk,
             "mem" => Mode::Mem,
+            "digest" => Mode::Digest,
             _ => Mode::Load,
         }
     }
@@ -153,6 +157,29 @@ fn violation_line(b: u64, s: u64, input: &Input, sig: String, detail: String, ex
 fn run_input(mode: Mode, b: u64, s: u64, input: &Input, seed: u64) -> (String, Option<String>, String) {
     let bytes = &input.bytes;
     match mode {
+        Mode::Digest => {
+            // everything observable about this input, as one token: used to compare build profiles
+            let r = guarded(|| load(bytes));
+            let code = match r {
+                Err(p) => format!("loadpanic:{}", p.signature().replace(' ', "_")),
+                Ok(Err(e)) => format!("err:{}", err_sig(&e).replace(' ', "_")),
+                Ok(Ok(ase)) => {
+                    let small = (ase.width() as u64) * (ase.height() as u64) <= 4096 && ase.num_frames() * ase.num_layers() <= 64;
+                    let r2 = guarded(|| {
+                        let mut o = crate::observe::ObsOpts::no_images();
+                        if small {
+                            o = crate::observe::ObsOpts::full();
+                        }
+                        crate::observe::observe(&ase, &o).digest()
+                    });
+                    match r2 {
+                        Ok(d) => format!("ok:{:016x}", d),
+                        Err(p) => format!("usepanic:{}", p.signature().replace(' ', "_")),
+                    }
+                }
+            };
+            (code, None, String::new())
+        }
         Mode::Load | Mode::Walk => {
             let r = guarded(|| load(bytes));
             match r {
@@ -325,6 +352,8 @@ pub struct SupResult {
     pub max_mem_ratio_milli: u64,
     pub max_mem_case: String,
     pub per_operator: BTreeMap<String, (u64, u64)>, // operator -> (inputs, accepted)
+    /// (base, sub) -> outcome code (Digest mode only)
+    pub codes: BTreeMap<(u64, u64), String>,
 }
 
 fn signal_name(sig: i32) -> &'static str {
@@ -468,11 +497,14 @@ fn run_stripe(ctx: &Ctx, cfg: &SupervisorCfg, k: u64, corpus: &[(String, Vec<u8>
                     let code = parts.next().unwrap_or("?").to_string();
                     let operator = parts.next().unwrap_or("?").to_string();
                     last_begin = None;
+                    if cfg.plan.mode == Mode::Digest {
+                        res.codes.insert((b, s), code.clone());
+                    }
                     let mut cr = CaseResult::default();
                     cr.nontrivial = true;
                     cr.feature = crate::rng::mix((b << 24) ^ s ^ crate::rng::hash_str(&cfg.build)) | 1;
                     cr.leaves = 1;
-                    cr.outcomes.push(format!("{}:{}", cfg.build, code));
+                    cr.outcomes.push(format!("{}:{}", cfg.build, if cfg.plan.mode == Mode::Digest { code.split(':').next().unwrap_or("?").to_string() } else { code.clone() }));
                     let fam = operator.split(':').take(2).collect::<Vec<_>>().join(":");
                     let e = res.per_operator.entry(fam).or_insert((0, 0));
                     e.0 += 1;
@@ -583,7 +615,7 @@ fn run_stripe(ctx: &Ctx, cfg: &SupervisorCfg, k: u64, corpus: &[(String, Vec<u8>
                 let operator = input.map(|i| i.operator.clone()).unwrap_or_default();
                 let phase = match cfg.plan.mode {
                     Mode::Load => "load",
-                    Mode::Walk => "load-or-use",
+                    Mode::Walk | Mode::Digest => "load-or-use",
                     Mode::Mem => "load",
                 };
                 let mut viol = Violation::new(
@@ -651,6 +683,7 @@ pub fn supervise(ctx: &Ctx, cfg: &SupervisorCfg) -> SupResult {
             e.0 += v.0;
             e.1 += v.1;
         }
+        total.codes.extend(r.codes);
     }
     total
 }
